@@ -36,9 +36,41 @@ def gen_wide(rng, i):
             "opts": {"retain_coefficients": False, "retain_names": True}, "wide": True}
 
 
+def gen_rotated(rng, i):
+    """an operand whose terms are stored in a rotated (neither sorted nor reversed) order, aligned with operands that add
+    no new term - a number, a sub-polynomial, itself (seeded change C04-10: a reorder-only fast path that applied the
+    permutation instead of its inverse)"""
+    names = gen.gen_names(rng, 1, 2)
+    shape = gen.choice(rng, [(), (), (2,)])
+    s = gen.gen_struct(rng, names=names, shape=shape, kind="int", nterms=int(rng.integers(3, 6)), maxexp=3)
+    rows = sorted(s["terms"], key=lambda t: t[0])
+    size = 1
+    for d in shape:
+        size *= d
+    for k, t in enumerate(rows):
+        t[1] = [k + 2 + 10 * j for j in range(size)]       # every coefficient distinct and non-zero
+    if not any(not any(t[0]) for t in rows):
+        rows.insert(0, [[0] * len(names), [1 + 10 * j for j in range(size)]])
+    shift = int(rng.integers(1, len(rows)))
+    s["terms"] = rows[shift:] + rows[:shift]
+    s["as"] = "poly"
+    how = gen.choice(rng, ["number", "subpoly", "self"])
+    if how == "number":
+        other = gen.gen_const_struct(rng, shape=(), kind="int")
+        other["as"] = "scalar"
+    elif how == "subpoly":
+        other = dict(s, terms=[list(map(lambda x: x, t)) for t in rows[:2]])
+    else:
+        other = dict(s)
+    return {"id": i, "kind": "c04", "which": gen.choice(rng, ["exponents", "polynomials"]), "ops": [s, other],
+            "opts": {"retain_coefficients": False, "retain_names": True}, "rotated": how}
+
+
 def gen_case(rng, i):
     if rng.random() < .04:
         return gen_wide(rng, i)
+    if rng.random() < .06:
+        return gen_rotated(rng, i)
     k = int(rng.integers(1, 5))
     common = gen.gen_shape(rng)
     which = gen.choice(rng, WHICH, p=[.4, .2, .2, .2])
